@@ -1284,9 +1284,15 @@ func lcRunRty(e *lcEnv) {
 // C11, the window closed by "terminate before reporting a write error": the Write of call K1 fails (the read side of
 // the connection stays healthy) while K2 is waiting for the client. K2 runs as soon as K1 has returned and must
 // find the connection terminated. Between the report of the error and the cancellation of the connection context
-// there is no yield point, so the window is widened from outside: while the write loop is at cli.write.beforeErr,
-// n goroutines start polling Err() of the connection context, which delays its cancel() (Go's cancelCtx takes its
-// mutex in both). On the code as it is this only delays K1's return.
+// there is no yield point, so the window is opened from outside, without touching the client: while the write loop
+// is at cli.write.beforeErr the harness takes the mutex INSIDE the connection context (found by type, by
+// reflection: the *conn's context.Context field, then that context's sync.Mutex field), which makes the write loop's
+// cancel() wait; it gives the mutex up at the moment a second contender arrives behind the write loop — K2 asking
+// the context for Err() — so that K2 reads the state of the context BEFORE the cancellation, exactly as in the run
+// the repair excludes. On the code as it is nobody comes (K1 has not returned), the mutex is given up after a few
+// pauses and the only effect is that K1 returns later. n > 0 selects the older, statistical variant: n goroutines
+// polling Err(). Both rest on cancelCtx taking its mutex in cancel() and Err(); `win.window` counts what happened
+// (second = opened for a second contender, late = it was already parked, nobody, polled, no-context).
 func lcRunWin(e *lcEnv) {
 	if !e.warm() {
 		e.finish(nil)
@@ -1306,14 +1312,25 @@ func lcRunWin(e *lcEnv) {
 	var t0 atomic.Int64
 	var delay atomic.Int64
 	var wobj atomic.Value
+	window := make(chan string, 1)
 	pb := lcPoints["beforeErr"]
 	e.dir.on(pb, e.dir.hitCount(pb), func() {
 		obj := e.dir.lastObj(pb)
-		if cctx := lcConnCtx(obj); cctx != nil && spec.n > 0 {
-			wobj.Store(fmt.Sprintf("%p", obj))
-			lcHammer(cctx, spec.n, stop, lcWaitEvent/20)
-			t0.Store(time.Now().UnixNano())
+		cctx := lcConnCtx(obj)
+		if cctx == nil {
+			window <- "no-context"
+			return
 		}
+		wobj.Store(fmt.Sprintf("%p", obj))
+		if mu := lcCtxMutex(cctx); mu != nil && spec.n == 0 {
+			// hold the context's mutex until the queued caller comes for it behind the write loop
+			lcHoldCtx(mu, 8*lcPause, window)
+		} else {
+			// fallback: delay the cancellation by polling Err() from n goroutines
+			lcHammer(cctx, max(2, spec.n), stop, lcWaitEvent/20)
+			window <- "polled"
+		}
+		t0.Store(time.Now().UnixNano())
 	})
 	pa := lcPoints["afterCancel"]
 	e.dir.onEvery(pa, func(obj any) {
@@ -1342,7 +1359,12 @@ func lcRunWin(e *lcEnv) {
 	if d := time.Duration(delay.Load()); d >= 20*time.Microsecond {
 		widened = ">=20us"
 	}
-	e.res.Counts = append(e.res.Counts, "win.k1="+k1.outcome, fmt.Sprintf("win.k2=%s pollers=%d", k2.outcome, spec.n), "win.cancel-delayed="+widened)
+	how := "not-reached"
+	select {
+	case how = <-window:
+	case <-time.After(lcWaitEvent):
+	}
+	e.res.Counts = append(e.res.Counts, "win.k1="+k1.outcome, fmt.Sprintf("win.k2=%s pollers=%d", k2.outcome, spec.n), "win.cancel-delayed="+widened, "win.window="+how)
 	if k2.outcome == "err" && e.firedCount() == k1.firedAt && k1.firedAt-f0 > 0 {
 		e.res.violate("C11", "recovers", "lts.cli:next-call-fails-after-write-error",
 			fmt.Sprintf("the Write of call %q failed (%v); call %q, which was waiting for the client and during which nothing failed, did not get a fresh connection and failed with: %v", k1.id, k1.err, k2.id, k2.err))
@@ -1671,7 +1693,7 @@ func lcSpecs(ctx *Ctx, dry lcDry) []string {
 		}
 		// (f) a write error while a second caller is waiting, the cancellation of the connection delayed
 		for i := 0; i < ctx.N(8, 12); i++ {
-			for _, hammer := range []int{2, 4, 8} {
+			for _, hammer := range []int{0, 0, 0, 4, 8} { // 0: hold the context's mutex; n > 0: poll Err() from n goroutines
 				for _, kind := range []string{"hreset", "short"} {
 					add(&lcSpec{fam: "win", n: hammer, pt: "-", srv: "-", next: "-", seed: seed, faults: []*lcFault{{dir: 'w', conn: 0, k: w0, kind: kind}}})
 				}
@@ -1843,10 +1865,15 @@ func lcConfirm(ctx *Ctx, all []*lcResult) []*lcResult {
 	if len(ctx.Replay) > 0 {
 		return all // a replay reports what it sees
 	}
+	confirmed, tried := 0, 0
 	for i, r := range all {
 		if r.Fail != "" || !lcTimingOnly(r) {
 			continue
 		}
+		if tried >= 8 || confirmed >= 3 {
+			break // this is not the load of the machine: report the rest as they are
+		}
+		tried++
 		again := false
 		var last *lcResult
 		for try := 0; try < 2 && !again; try++ {
@@ -1859,6 +1886,7 @@ func lcConfirm(ctx *Ctx, all []*lcResult) []*lcResult {
 			again = len(last.Viol) > 0
 		}
 		if again || last == nil {
+			confirmed++
 			continue
 		}
 		ctx.Res.Count("lts.cli: timing observation not reproduced with more patience (machine load?): " + r.Viol[0].Key + " " + r.Spec)
